@@ -113,6 +113,7 @@ pub fn run(case: &Value) -> Value {
                 Err(e) => json!({"ok": false, "doc_err": format!("{:?}", e)}),
             }
         }
+        "mutate" => mutate(case),
         "chardata" => chardata(case),
         "create" => create(case),
         "dom_order" => {
@@ -221,6 +222,99 @@ fn res_unit(r: Result<(), xml_dom::error::Error>) -> Value {
 }
 
 /// character-data operation on a text / comment / CDATA node that is a child of <r>
+/// one tree mutator on the root element of `input`; reports the child list and the navigation views afterwards
+fn mutate(case: &Value) -> Value {
+    use xml_dom::{AsNode, Document, DocumentMut, Node, NodeMut};
+    let input = case["input"].as_str().unwrap_or("<r/>");
+    let (_, doc) = match xml_dom::XmlDocument::from_raw(input) {
+        Ok(v) => v,
+        Err(e) => return json!({"ok": false, "doc_err": format!("{:?}", e)}),
+    };
+    let top = doc.document_element().unwrap();
+    // the element that is mutated: the root element, or ("parent": i) its i-th child
+    let root = match case["parent"].as_u64() {
+        Some(i) => match top.child_nodes().iter().nth(i as usize) {
+            Some(xml_dom::XmlNode::Element(e)) => e,
+            _ => return json!({"ok": false, "err": "parent is not an element"}),
+        },
+        None => top.clone(),
+    };
+    let label = |n: &xml_dom::XmlNode| -> String { format!("{}|{}", n.node_name(), n.node_value().ok().flatten().unwrap_or_default()) };
+    let kids: Vec<xml_dom::XmlNode> = root.child_nodes().iter().collect();
+    let before: Vec<String> = kids.iter().map(|n| label(n)).collect();
+    let kinds: Vec<String> = kids.iter().map(|n| format!("{:?}", n.node_type())).collect();
+    let all_before: Vec<String> = match xml_xpath::query(doc.clone(), "//node()", &mut xml_xpath::eval::model::Context::default()) {
+        Ok(xml_xpath::eval::model::Value::Node(ns)) => ns.iter().map(|n| label(n)).collect(),
+        _ => vec![],
+    };
+    let pick = |v: &Value| -> Option<xml_dom::XmlNode> {
+        match v["kind"].as_str().unwrap_or("") {
+            "child" => kids.get(v["index"].as_u64().unwrap_or(0) as usize).cloned(),
+            "grandchild" => kids.get(v["index"].as_u64().unwrap_or(0) as usize).and_then(|k| k.first_child()),
+            "self" => Some(root.as_node()),
+            "top" => Some(top.as_node()),
+            "new-element" => doc.create_element("new").ok().map(|e| e.as_node()),
+            "new-subtree" => doc.create_element("new").ok().map(|e| {
+                let c = doc.create_element("newchild").unwrap();
+                let _ = e.append_child(c.as_node());
+                e.as_node()
+            }),
+            "new-text" => Some(doc.create_text_node("new").as_node()),
+            "new-comment" => Some(doc.create_comment("new").as_node()),
+            "new-attribute" => doc.create_attribute("new").ok().map(|e| e.as_node()),
+            "foreign-element" => {
+                let (_, other) = xml_dom::XmlDocument::from_raw("<o/>").unwrap();
+                other.create_element("foreign").ok().map(|e| e.as_node())
+            }
+            _ => None,
+        }
+    };
+    let new = pick(&case["new"]);
+    let reference = if case["ref"].is_null() { None } else { pick(&case["ref"]) };
+    let action = case["action"].as_str().unwrap_or("");
+    let r = match action {
+        "insert_before" => match new.clone() { Some(n) => root.insert_before(n, reference.as_ref()), None => return json!({"ok": false, "err": "no new node"}) },
+        "append_child" => match new.clone() { Some(n) => root.append_child(n), None => return json!({"ok": false, "err": "no new node"}) },
+        "replace_child" => match (new.clone(), reference.clone()) { (Some(n), Some(o)) => root.replace_child(n, &o), _ => return json!({"ok": false, "err": "no node"}) },
+        "remove_child" => match reference.clone() { Some(o) => root.remove_child(&o), None => return json!({"ok": false, "err": "no node"}) },
+        _ => return json!({"ok": false, "err": "unknown action"}),
+    };
+    let after_nodes: Vec<xml_dom::XmlNode> = root.child_nodes().iter().collect();
+    let after: Vec<String> = after_nodes.iter().map(|n| label(n)).collect();
+    let parents_ok = after_nodes.iter().all(|n| n.parent_node().map(|p| label(&p)) == Some(label(&root.as_node())));
+    let mut links_ok = root.first_child().map(|n| label(&n)) == after.first().cloned() && root.last_child().map(|n| label(&n)) == after.last().cloned();
+    for (i, n) in after_nodes.iter().enumerate() {
+        let next = n.next_sibling().map(|x| label(&x));
+        let prev = n.previous_sibling().map(|x| label(&x));
+        if next != after.get(i + 1).cloned() || prev != (if i == 0 { None } else { after.get(i - 1).cloned() }) {
+            links_ok = false;
+        }
+    }
+    let mut ctx = xml_xpath::eval::model::Context::default();
+    let qpath = if case["parent"].is_null() { "/r/node()".to_string() } else { format!("/r/node()[{}]/node()", case["parent"].as_u64().unwrap_or(0) + 1) };
+    let by_keys: Vec<String> = match xml_xpath::query(doc.clone(), qpath.as_str(), &mut ctx) {
+        Ok(xml_xpath::eval::model::Value::Node(ns)) => ns.iter().map(|n| label(n)).collect(),
+        other => vec![format!("{:?}", other.map(|v| format!("{:?}", v)))],
+    };
+    let detached_parent = match (action, reference.as_ref(), new.as_ref()) {
+        ("remove_child", Some(o), _) | ("replace_child", Some(o), _) => o.parent_node().map(|p| label(&p)),
+        _ => None,
+    };
+    let new_parent = new.as_ref().and_then(|n| n.parent_node()).map(|p| label(&p));
+    let all_after: Vec<String> = match xml_xpath::query(doc.clone(), "//node()", &mut xml_xpath::eval::model::Context::default()) {
+        Ok(xml_xpath::eval::model::Value::Node(ns)) => ns.iter().map(|n| label(n)).collect(),
+        _ => vec![],
+    };
+    let _ = (&all_before, &all_after);
+    match r {
+        Ok(v) => json!({"ok": true, "kinds": kinds, "before": before, "after": after, "returned": label(&v), "parents_ok": parents_ok, "links_ok": links_ok,
+                        "by_order_keys": by_keys, "old_parent_after": detached_parent, "new_parent_after": new_parent, "printed": format!("{}", doc),
+                        "all_before": all_before, "all_after": all_after}),
+        Err(e) => json!({"ok": false, "kinds": kinds, "before": before, "after": after, "err": format!("{:?}", e), "parents_ok": parents_ok, "links_ok": links_ok,
+                         "by_order_keys": by_keys, "new_parent_after": new_parent, "printed": format!("{}", doc), "all_before": all_before, "all_after": all_after}),
+    }
+}
+
 fn chardata(case: &Value) -> Value {
     use xml_dom::{AsNode, CharacterData, CharacterDataMut, Document, DocumentMut, Node, NodeMut, TextMut};
     let kind = case["kind"].as_str().unwrap_or("text");
